@@ -21,13 +21,12 @@ META = dict(
           "the C casts of the bound checks: accepted requests touch only bytes inside the handle's own range, rejected "
           "requests change nothing, no request crashes, and every observation equals that of an abstract byte-map "
           "specification in which slices and casts alias and clones do not (refinement by invariant, unbounded histories; "
-          "arguments below 2^40 and dtype sizes up to 2^20, i.e. where no product wraps; the wrapping region is a stated "
-          "known finding with witnesses). The model is tied to the C++ by running the extracted model and the real "
+          "ALL dim_t arguments -2^63..2^63-1 and all positive int dtype sizes: with fixes/C02-7 no product or sum of the "
+          "bound checks wraps). The model is tied to the C++ by running the extracted model and the real "
           "library (Serial and OpenMP, ASan+UBSan) on the same histories.",
     note="Trusted: Coq kernel; the hand model (tie is differential, seeded histories incl. malformed arguments and "
-         "uninitialized handles in every position); extraction; drivers. Needs fixes/C02-1..6 applied to /repo "
-         "(the pinned behaviour is kept as cfg `pinned` with _refuted theorems). Arguments >= 2^40 are outside the "
-         "theorems (known finding huge_arg).",
+         "uninitialized handles in every position, arguments up to INT64_MIN/INT64_MAX); extraction; drivers. Needs "
+         "fixes/C02-1..7 applied to /repo (the earlier behaviour is kept as cfg `pinned`/`fixed6` with _refuted theorems).",
     technique="Coq safety-of-guards + refinement proof (invariant over histories) + extracted-model/implementation differential correspondence",
     design_ref="DESIGN.md section 5, C02")
 
@@ -37,7 +36,6 @@ I64MAX = (1 << 63) - 1
 I64MIN = -(1 << 63)
 HUGE = [1 << 62, (1 << 62) + 1, I64MAX, I64MIN, -(1 << 62) + 1, 0x5555555555555555, (1 << 61) + 3, I64MIN + 1,
         1 << 40, -(1 << 40), (1 << 32) + 1, 1 << 58]
-ARGMAX = 1 << 40     # the theorems' guard on arguments (coq/C02/Proofs.v: small)
 
 
 class Shadow:
@@ -62,9 +60,9 @@ def pick_slot(rng, sh, want_live=True, p_wrong=0.08):
 def arg(rng, valid, bound, huge_ok):
     """an argument: mostly `valid`, otherwise from the malformed stream around `bound`"""
     x = rng.random()
-    if x < 0.80:
+    if x < (0.75 if huge_ok else 0.80):
         return valid
-    if x < 0.97 or not huge_ok:
+    if x < 0.88 or not huge_ok:
         return rng.choice([-1, -2, bound, bound + 1, bound - 1, 0, 1, -bound, bound + 2, -3])
     return rng.choice(HUGE)
 
@@ -85,7 +83,8 @@ def gen_case(rng, tier, huge_ok):
             if y < 0.06:
                 n = rng.choice([0, -1, -2, -7])
             elif y < 0.08 and huge_ok:
-                n = rng.choice([I64MIN, -(1 << 62) - 1, -(1 << 61), I64MIN + 1])   # (huge positive sizes: fixed batch only)
+                # sizes the library must refuse (positive ones only where n*dt > 2^62-1, so that nothing tries to allocate them)
+                n = rng.choice([I64MIN, -(1 << 62) - 1, -(1 << 61), I64MIN + 1, I64MAX, 1 << 62, (1 << 62) + 5])
             kind = rng.random()
             if kind < 0.25:
                 toks.append("m:%d:%d:%d" % (d, n, dt))
@@ -264,7 +263,7 @@ def fixed_cases():
 
 
 def huge_cases():
-    """the wrapping region (known finding huge_arg): products that wrap, sums that overflow"""
+    """arguments near the ends of the dim_t range: products that wrapped and sums that overflowed before fixes/C02-7"""
     base = "M0 h:0:16:1:7:0 c:1:0:4 c:2:0:3"
     return [
         base + " T:1:4611686018427387905:0", base + " T:1:1:4611686018427387905", base + " T:0:9223372036854775807:1",
@@ -273,9 +272,6 @@ def huge_cases():
         "M0 m:0:9223372036854775807:4", "M0 m:0:-9223372036854775808:4", "M0 w:0:4611686018427387904:4:1",
         base + " T:1:1099511627776:0", base + " T:1:1:1099511627776", base + " s:3:1:1099511627776:-1",
     ]
-
-
-NUM = re.compile(r"-?\d+")
 
 
 def nontrivial(case):
@@ -287,34 +283,8 @@ def nontrivial(case):
     return len(allocs) >= 1 and len(views) >= 1 and len(reads) >= 1 and len(writes) >= 1
 
 
-# known-finding signatures: predicates over a (shrunk) failing case
-def sig_huge_arg(case):
-    """some integer argument of some operation is >= 2^40 in absolute value (the theorems' guard)"""
-    for tok in case.split():
-        f = tok.split(":")
-        if f[0] in ("M0", "M1"):
-            continue
-        for x in f[1:]:
-            if NUM.fullmatch(x) and abs(int(x)) >= ARGMAX:
-                return True
-    return False
-
-
-SIGNATURES = {"huge_arg": sig_huge_arg}
-EXTRA_KNOWN = os.path.join(C.VERIF, "docs", "notes", "C02.known")
-
-
-def extra_known():
-    res = []
-    if os.path.exists(EXTRA_KNOWN):
-        for line in open(EXTRA_KNOWN):
-            line = line.strip()
-            if not line or line.startswith("#") or line.startswith("fixed:"):
-                continue
-            parts = [x.strip() for x in line.split("|")]
-            if len(parts) >= 4 and parts[0] == PROP:
-                res.append(dict(prop=parts[0], signature=parts[1], input=parts[2], what=" | ".join(parts[3:])))
-    return res
+# no known findings: the former `huge_arg` (wrapping bound checks) is repaired by fixes/C02-7
+SIGNATURES = {}
 
 
 def canon_crash(line):
@@ -352,15 +322,6 @@ class Diff(C.Differential):
         I = [mask_undef(canon_crash(i), s) for i, s in zip(I, S)]
         return I, R, S
 
-    def judge(self, *a, **kw):
-        orig = C.load_known_findings
-        C.load_known_findings = lambda prop: orig(prop) + [k for k in extra_known()
-                                                          if k["signature"] not in [o["signature"] for o in orig(prop)]]
-        try:
-            return super().judge(*a, **kw)
-        finally:
-            C.load_known_findings = orig
-
 
 def setup():
     C.build_driver(PROP, flavour="asan")
@@ -377,8 +338,8 @@ def run(run, tier, seed, replay_case=None):
 
     rng = random.Random(seed * 7919 + 2)
     corpus = C.load_corpus(PROP)
-    n = 2500 if tier == "quick" else 20000
-    nh = 40 if tier == "quick" else 300
+    n = 1700 if tier == "quick" else 40000
+    nh = 800 if tier == "quick" else 15000
     stage1 = list(corpus) + fixed_cases() + huge_cases()
     env = C.lib_env("asan")
     env["OMP_NUM_THREADS"] = "2"
@@ -391,12 +352,12 @@ def run(run, tier, seed, replay_case=None):
         cases = [replay_case]
         I, R, S = D.eval(cases)
     else:
-        # stage 1: corpus + defect witnesses + guard boundaries.  When these already fail (outside the known
-        # finding) the seeded batch is not run: on a tree without fixes/C02-1..6 a large part of it would
-        # crash the driver, one process restart per crash.
+        # stage 1: corpus + defect witnesses + guard boundaries + extreme arguments.  When these already fail the
+        # seeded batch is not run: on a tree without fixes/C02-1..7 a large part of it would crash the driver,
+        # one process restart per crash.
         cases = stage1
         I, R, S = D.eval(cases)
-        bad = [i for i in range(len(cases)) if D.fails_spec(I[i], S[i]) and not sig_huge_arg(cases[i])]
+        bad = [i for i in range(len(cases)) if D.fails_spec(I[i], S[i])]
         if not bad:
             more = [gen_case(rng, tier, False) for _ in range(n)] + [gen_case(rng, tier, True) for _ in range(nh)]
             I2, R2, S2 = D.eval(more)
@@ -410,8 +371,8 @@ def run(run, tier, seed, replay_case=None):
     cov["distinct_nontrivial"] = len(distinct)
     cov["rule"] = ("seeded histories of 4-16 (quick) / 4-40 (thorough) operations over 6 handle slots on a Serial or OpenMP "
                    "device, dtypes of 1/2/3/4/8/12 bytes (3 and 12 are struct dtypes); arguments 80% valid for the "
-                   "generator's shadow of the slots, otherwise from -1,-2,-3,0,1,len-1,len,len+1,len+2,-len and (separate "
-                   "batch) 2^32+1..2^63-1, INT64_MIN; plus a fixed batch of defect witnesses, guard boundaries and aliasing "
+                   "generator's shadow of the slots, otherwise from -1,-2,-3,0,1,len-1,len,len+1,len+2,-len and (a third of the "
+                   "histories) 2^32+1..2^63-1, INT64_MIN, (2^64-1)/3; plus a fixed batch of defect witnesses, guard boundaries and aliasing "
                    "scripts; every history ends by reading back all live handles and wrapped host arrays; non-trivial = "
                    "at least one allocation, one slice/cast, one write and one read; distinct = distinct case text")
     k = len(cases)
@@ -423,11 +384,11 @@ def run(run, tier, seed, replay_case=None):
                                      ("assign", "a:"), ("reset", "r:"), ("size", "z:"), ("host_read", "H:"))}
     cov["outcomes"] = dict(err_ops=sum(s.count("ERR") for s in S), crash_cases=sum(1 for i in I if i.startswith("R CRASH")),
                            openmp_cases=sum(1 for c in cases if c.startswith("M1")))
-    run.assumptions = ["theorems cover arguments with |x| < 2^40 and dtype sizes 1..2^20 (no 64-bit product or sum wraps); larger "
-                       "arguments are the known finding huge_arg and are exercised only by the differential run",
+    run.assumptions = ["integer arguments are dim_t values (all of -2^63..2^63-1), dtype sizes positive ints; a single allocation "
+                       "above 2^62-1 bytes is refused (entriesToBytes) and is an error in the specification too",
                        "bytes of a malloc without source are unspecified and not compared",
                        "memory::free, memory::swap, memoryPool and device.free are not exercised (other properties)",
-                       "the model describes /repo with fixes/C02-1..6 applied; the pinned behaviour is cfg `pinned`"]
+                       "the model describes /repo with fixes/C02-1..7 applied; the earlier behaviour is cfg `pinned` / `fixed6`"]
 
 
 def replay(run, path):
